@@ -1,5 +1,6 @@
 import BM.Proofs.Step
 import BM.Props.C02
+import BM.Proofs.Bytes
 /-
   C07: conforming content passes through unchanged (rules are additive).  Proved (token level,
   every policy): outside skipped content
@@ -15,7 +16,7 @@ import BM.Props.C02
   got, and pass-through is checked on policy-derived conforming documents by `oracleC07`.
 -/
 namespace BM.Props
-open BM BM.Html
+open BM BM.Html BM.Spec
 
 theorem conforming_start_unchanged (p : Policy) (st : LoopState) (t : Token) (aps : AttrRules)
     (htt : t.tt = .start) (hss : isScriptOrStyle t.data = false)
@@ -64,6 +65,160 @@ theorem more_rules_accept_more (apl : List AttrPolicy) (ap : AttrPolicy) (v : By
 theorem new_rule_accepts (apl : List AttrPolicy) (r : Pat) (v : Bytes) (h : r.test v = true) :
     attrPoliciesAccept (apl ++ [some r]) v = true := by
   rw [accept_append]; simp [attrPoliciesAccept, h]
+
+/-! ### byte level: a canonical conforming document is returned byte for byte -/
+
+/-- a token of a canonical conforming document: plain (well-formed name and keys, no raw-text
+    element), allowed, not script/style, its attribute list a fixed point of `sanitizeAttrs`
+    (every attribute and value allowed, nothing for the sanitiser to add or rewrite) and not
+    bare unless the element may be bare -/
+def Conform (p : Policy) (t : Token) : Prop :=
+  SegOK t ∧
+  match t.tt with
+  | .text => True
+  | .start => isScriptOrStyle t.data = false ∧ ∃ aps, p.attrRulesFor t.data = some aps ∧
+      p.cleanAttrs t aps = some t.attrs ∧ (t.attrs ≠ [] ∨ p.allowNoAttrs t.data = true)
+  | .selfClosing => isScriptOrStyle t.data = false ∧ ∃ aps, p.attrRulesFor t.data = some aps ∧
+      p.cleanAttrs t aps = some t.attrs ∧ (t.attrs ≠ [] ∨ p.allowNoAttrs t.data = true)
+  | .end_ => isScriptOrStyle t.data = false ∧ (p.explicitEl t.data = true ∨ p.patternEl t.data = true)
+  | .comment => False
+  | .doctype => False
+
+/-- nothing is being skipped or dropped, and we are not inside a script/style body -/
+def Clear (st : LoopState) : Prop :=
+  st.skipElementContent = false ∧ st.skipClosingTag = false ∧ isScriptOrStyle st.mostRecentlyStartedToken = false
+
+theorem conform_step (p : Policy) (st : LoopState) (t : Token) (hc : Conform p t) (hj : Clear st) :
+    ∃ st', p.step st t = some (st', [⟨t.render⟩]) ∧ Clear st' := by
+  obtain ⟨tt, data, attrs⟩ := t
+  obtain ⟨_, hc⟩ := hc
+  obtain ⟨hskip, hsct, hrec⟩ := hj
+  cases tt with
+  | comment => exact hc.elim
+  | doctype => exact hc.elim
+  | text =>
+    exact ⟨st, by simp [Policy.step, Policy.stepText, hskip, hrec], hskip, hsct, hrec⟩
+  | start =>
+    obtain ⟨hss, aps, haps, hfix, hbare⟩ := hc
+    simp only at hss haps hfix hbare
+    have hb : (attrs.isEmpty && !p.allowNoAttrs data) = false := by
+      rcases hbare with h | h
+      · cases ha : attrs with
+        | nil => exact absurd ha h
+        | cons _ _ => simp
+      · simp [h]
+    have hmk : ∀ s : LoopState, s.skipClosingTag = false → markKept s data = s := by
+      intro s h; simp [markKept, h]
+    refine ⟨markKept { st with mostRecentlyStartedToken := data } data, ?_, ?_⟩
+    · simp only [Policy.step, Policy.stepStart, hss, Bool.false_and, Bool.false_eq_true, ↓reduceIte,
+        haps, hfix, hb]
+      have hs : (markKept { st with mostRecentlyStartedToken := data } data).skipElementContent = false := by
+        rw [hmk { st with mostRecentlyStartedToken := data } hsct]; exact hskip
+      simp [emitUnlessSkipping, hs]
+    · rw [hmk { st with mostRecentlyStartedToken := data } hsct]; exact ⟨hskip, hsct, hss⟩
+  | selfClosing =>
+    obtain ⟨hss, aps, haps, hfix, hbare⟩ := hc
+    simp only at hss haps hfix hbare
+    have hb : (attrs.isEmpty && !p.allowNoAttrs data) = false := by
+      rcases hbare with h | h
+      · cases ha : attrs with
+        | nil => exact absurd ha h
+        | cons _ _ => simp
+      · simp [h]
+    refine ⟨{ st with mostRecentlyStartedToken := data }, ?_, hskip, hsct, hss⟩
+    simp [Policy.step, Policy.stepSelfClosing, hss, haps, hfix, hb, emitUnlessSkipping, hskip]
+  | end_ =>
+    obtain ⟨hss, hall⟩ := hc
+    simp only at hss hall
+    have hcr : Clear (clearRecent st data) := by
+      unfold clearRecent; split
+      · exact ⟨hskip, hsct, rfl⟩
+      · exact ⟨hskip, hsct, hrec⟩
+    obtain ⟨st', hstep, h1, h2⟩ := allowed_end_unchanged p st ⟨.end_, data, attrs⟩ rfl hss hall hsct hskip
+    refine ⟨st', hstep, h1, h2, ?_⟩
+    -- the state after an allowed end tag is `clearRecent st data`
+    have : st' = clearRecent st data := by
+      have hpm : popMarker (clearRecent st data) data = clearRecent st data := by
+        simp [popMarker, hcr.2.1]
+      have hls : p.leaveSkip (clearRecent st data) data = clearRecent st data := by
+        unfold Policy.leaveSkip; rcases hall with h | h <;> simp [h]
+      have hnot : (!p.explicitEl data && !p.patternEl data) = false := by
+        rcases hall with h | h <;> simp [h]
+      have h' : p.step st ⟨.end_, data, attrs⟩ = some (clearRecent st data, [⟨Token.render ⟨.end_, data, attrs⟩⟩]) := by
+        simp [Policy.step, Policy.stepEnd, hss, hcr.1, hcr.2.1, hpm, hls, hnot, emitUnlessSkipping]
+      rw [h'] at hstep
+      simp at hstep
+      exact hstep.symm
+    rw [this]; exact hcr.2.2
+
+/-- the loop writes a conforming token list back exactly -/
+theorem conform_run (p : Policy) (ts : List Token) (hc : ∀ t ∈ ts, Conform p t) :
+    ∀ st, Clear st → (p.run st ts).1.map (·.data) = ts.map Token.render := by
+  induction ts with
+  | nil => intro st _; simp [Policy.run]
+  | cons t ts ih =>
+    intro st hj
+    obtain ⟨st', hs, hj'⟩ := conform_step p st t (hc t (by simp)) hj
+    unfold Policy.run
+    simp only [hs]
+    simp [ih (fun x hx => hc x (by simp [hx])) st' hj']
+
+theorem render_flushText (d : Bytes) : renderAll (flushText d) = escape d := by
+  unfold flushText
+  split
+  · rename_i h; simp [List.isEmpty_iff.mp h, renderAll, escape]
+  · simp [renderAll, Token.render]
+
+/-- merging adjacent texts does not change the serialisation -/
+theorem renderAll_coalesce : ∀ (ts : List Token) (d : Bytes), renderAll (coalesce d ts) = escape d ++ renderAll ts
+  | [], d => by simp [coalesce, render_flushText, renderAll]
+  | t :: ts, d => by
+    simp only [coalesce]
+    split
+    · rename_i h
+      have ht : t.tt = .text := by revert h; cases t.tt <;> intro h <;> first | rfl | exact absurd h (by decide)
+      rw [renderAll_coalesce ts, escape_append]
+      simp [renderAll, Token.render, ht, List.append_assoc]
+    · rw [renderAll_append, render_flushText]
+      simp [renderAll, renderAll_coalesce ts, escape]
+
+theorem conform_coalesce (p : Policy) : ∀ (ts : List Token) (d : Bytes), (∀ t ∈ ts, Conform p t) →
+    ∀ k ∈ coalesce d ts, Conform p k := by
+  intro ts d hc k hk
+  rcases mem_coalesce ts d k hk with ⟨h1, h2⟩ | ⟨h1, _⟩
+  · obtain ⟨tt, data, attrs⟩ := k
+    simp only at h1 h2; subst h1; subst h2
+    exact ⟨by simp [SegOK], trivial⟩
+  · exact hc k h1
+
+/-- **C07 (byte level)**: the canonical serialisation of a conforming token list — texts, and
+    tags of allowed elements whose attribute lists the sanitiser has nothing to remove, add
+    or rewrite — is returned byte for byte, by every policy. -/
+theorem C07_bytes (p : Policy) (toks : List Token) (hc : ∀ t ∈ toks, Conform p.ensureInit t) :
+    p.sanitizeCore (renderAll toks) = renderAll toks := by
+  have hseg : ∀ t ∈ toks, SegOK t := fun t ht => (hc t ht).1
+  unfold Policy.sanitizeCore Policy.sanitizeTokens
+  rw [tokenize_renderAll toks hseg,
+    conform_run p.ensureInit (coalesce [] toks) (conform_coalesce p.ensureInit toks [] hc) {} ⟨rfl, rfl, rfl⟩,
+    flatten_map_render, renderAll_coalesce]
+  simp [escape]
+
+/-- non-vacuity: a conforming token list for a concrete policy -/
+example :
+    let p : Policy := { initialized := true, elsAndAttrs := [(b!"b", []), (b!"a", [(b!"href", [none])])],
+                        setOfElementsAllowedWithoutAttrs := [b!"b"] }
+    ∀ t ∈ [(⟨.start, b!"a", [⟨b!"href", b!"x"⟩]⟩ : Token), ⟨.text, b!"1<2", []⟩, ⟨.start, b!"b", []⟩,
+           ⟨.end_, b!"b", []⟩, ⟨.end_, b!"a", []⟩], Conform p.ensureInit t := by
+  intro p t ht
+  simp only [List.mem_cons, List.not_mem_nil, or_false] at ht
+  rcases ht with rfl | rfl | rfl | rfl | rfl
+  · refine ⟨⟨⟨97, [], rfl, by decide, by simp⟩, by decide, ?_⟩, by decide, [(b!"href", [none])], rfl, rfl, .inl (by simp)⟩
+    intro a ha; simp at ha; subst ha
+    exact ⟨104, b!"ref", rfl, by decide, by decide⟩
+  · exact ⟨trivial, trivial⟩
+  · exact ⟨⟨⟨98, [], rfl, by decide, by simp⟩, by decide, by simp⟩, by decide, [], rfl, rfl, .inr (by decide)⟩
+  · exact ⟨⟨⟨98, [], rfl, by decide, by simp⟩, rfl⟩, by decide, .inl (by decide)⟩
+  · exact ⟨⟨⟨97, [], rfl, by decide, by simp⟩, rfl⟩, by decide, .inl (by decide)⟩
 
 example :
     let digits : Pat := ⟨1, fun v => v.all isDigit && !v.isEmpty⟩
